@@ -63,6 +63,8 @@ class Expr:
             raise TranslationError("unknown name " + key)
         if isinstance(e, ast.Call):
             fn = ast.unparse(e.func)
+            if fn == "float" and len(e.args) == 1 and not e.keywords:      # a cast: the identity in exact arithmetic
+                return self.tr(e.args[0])
             if fn in self.calls and not e.keywords:
                 return self.calls[fn](*[self.tr(a) for a in e.args])
             raise TranslationError("call " + fn)
